@@ -104,10 +104,14 @@ def predStepList (pns : Name) (st : List (Name × PredInfo) × List Name) (p : P
   let iname := p.integ.getD pns
   ((lower (dotted iname p.name), ⟨some iname⟩) :: st.1, lower iname :: st.2)
 
-/-- legacy dict form: one iteration -/
+/-- `name.rsplit('.', 1)[0]`: what stands before the LAST dot of a name that contains one -/
+def beforeLastDot (n : Name) : Name := ((n.reverse.dropWhile (· ≠ dot)).drop 1).reverse
+
+/-- legacy dict form: one iteration (since d8a610a a dotted key `project.model` without `integration_name` gets the
+part before its last dot as `integration_name`; before, the entry was stored as given) -/
 def predStepLegacy (pns : Name) (st : List (Name × PredInfo) × List Name) (p : PredSpec) :
     List (Name × PredInfo) × List Name :=
-  if dot ∈ p.name then ((p.name, ⟨p.integ⟩) :: st.1, st.2)
+  if dot ∈ p.name then ((p.name, ⟨some (p.integ.getD (beforeLastDot p.name))⟩) :: st.1, st.2)
   else
     let iname := p.integ.getD pns
     ((lower (dotted iname p.name), ⟨some iname⟩) :: st.1, lower iname :: st.2)
